@@ -28,6 +28,15 @@ CLAIMS = {
             'error vanishes (PD), invariant under permuting edges; a vanishing error means the measurement equals the relative pose / maps onto the landmark.',
             AX + TR + 'Unit-quaternion hypotheses on SE(3) operands exactly where the code unit-norm rotation form is compared with the homogeneous form. Over exact reals.',
             'Coq proof over regenerated model (ring identities vs independent spec, induction over edge list) + PrimFloat correspondence'),
+    'C07': ('proof',
+            'PARTIAL. Theorem C07 (coq/props/C07.v): for all 8 regenerated edge programs the error (hence chi2) is unchanged when every '
+            'vertex is left-composed with one rigid transform (unit quaternions for SE(3); landmark points moved by the action); boxplus commutes with '
+            'the transform; the Jacobians of the transformed edges equal those of the original for pose slots (by uniqueness of the derivative '
+            'from C01); and for an abstract iteration whose linearisation is invariant, iterate k of the transformed graph is the transform of iterate k '
+            'for ANY solver that is a function of the linearised system (induction over iterations). NOT proved: the landmark-slot case of the '
+            'trajectory (H\' = P^T H P with the rotation of T), covered only by the metamorphic oracle on the implementation.',
+            AX + TR + 'Over exact reals; floating-point agreement of trajectories is tested by the oracle with magnitude-aware tolerances.',
+            'Coq proof over regenerated model (ring identities, uniqueness of derivative, induction over iterations) + metamorphic oracle'),
     'C09': ('proof',
             'Theorem C09 (coq/props/C09.v): for the pose model regenerated from pose/*.py on every run, (+) is the product of homogeneous '
             'matrices / Hamilton product of an independently written specification (lib/Spec.v), a (-) b = b^-1 (+) a, inverse and identity are '
@@ -49,6 +58,19 @@ CLAIMS = {
             '[-pi,pi] in doubles -- those are a soak test reported in the evidence, never counted as obligations.',
             AX + TR + 'Float drift is tested, not proved.',
             'Coq proof (invariant by induction over operation chains) + PrimFloat correspondence + soak test for rounding'),
+    'C12': ('proof',
+            'Theorems C12_initial, C12_iter_chi2, C12_final, C12_stop, C12_stop_R, C12_verbose, C12_split, C12_split_tol0_R, C12_no_hidden_state '
+            '(coq/props/C12.v) over the hand-written executable model lib/OptLoop.v of Graph.optimize (abstract chi2_of / step / prep, generic scalar '
+            'interface instantiated with R for the documented reading and with PrimFloat for the correspondence): the report carries exactly the '
+            'chi2 of the successive states, the run stops at the first iteration satisfying the documented rule else at max_iter, converged / '
+            'num_iterations / number of entries say exactly that, verbose does not alter state or report, a run without an early stop splits into '
+            'consecutive calls, and the returned state is step^N of the start (no hidden state) -- all by induction over max_iter. C12_split_boundary_refuted '
+            'documents that a stop exactly at the cut breaks splitting. Tied to the code by a BIT-EXACT correspondence on scripted chi2 tables '
+            '(monotone, plateau, rise, inf, nan; 6 tolerances x max_iter 0..30 x verbose x fix_first_pose).',
+            'Trusted: Coq kernel; generic theorems closed under the global context, the R readings use sig_forall_dec and functional_extensionality_dep; '
+            'step (assembly + spsolve + boxplus) and prep (fix_first_pose) are abstract parameters here (modelled in lib/GraphModel.v for C03/C06); '
+            'str.format and wall-clock fields not modelled; hand model validated by correspondence.',
+            'Coq proof over hand-written model (induction over iterations) + bit-exact PrimFloat correspondence'),
     'C13': ('proof',
             'Theorems C13_roundtrip, C13_cycles, C13_refuses, C13_unpack_pack (coq/props/C13.v) over the hand-written executable model '
             'lib/G2OModel.v of Graph.to_g2o / from_g2o (real text lines, prefix dispatch in the code order, tokenisation, triangular packing, '
